@@ -71,9 +71,11 @@ the forkless-cause oracle answers `N.FC` (C05), the validator record is canonica
 ≤ 2^31-1 (C12), accepted frames are < 2^31, the application never seals (one epoch).
 
 NOT proved: several epochs / sealing (C09; `decideLoop` with a seal, the fresh instance of the next
-epoch), restarts (C08); the confirmed-event lists of the blocks are the subject of C02 (the
-reference's `events` field: see `Props/C02.lean` if a corollary is present there), the cheater lists
-of C03 (`C03_reference_cheaters`). That the accepted frames and the forkless-cause index of the real
+epoch), restarts (C08). The other two fields of a block are treated in their own properties: the
+confirmed-event lists in C02 (`C02_reference_delivers`, `C02_reference_eq_model_delivered`:
+reference `events` = new ancestry of the Atropos = what the model's `confirmEvents` delivers), the
+cheater lists in C03 (`C03_reference_cheaters`: reference cheaters = the model's cheater loop on the
+Atropos, mapped to ids by the reference's own index → id table). That the accepted frames and the forkless-cause index of the real
 code are the graph ones is C04 / C05. The equality "real code = this model = reference
 `Spec.Lachesis`" is checked three ways on every scenario of the `cons` stream; inside Lean
 "model = reference" is now closed for the `(frame, Atropos)` sequence of one epoch.
